@@ -286,10 +286,10 @@ def call(q, c, env):
         return q.groupby(*[seltarget(e, env) for e in c[1]])
     if k == "orderby":
         return q.orderby(*[seltarget(e, env) for e in c[1]], order=ORD[c[2] if len(c) > 2 else None])
-    if k == "limit":
-        return q.limit(c[1])
+    if k == "limit":  # (a Term instead of an int: ["limit", E])
+        return q.limit(expr(c[1], env) if isinstance(c[1], list) else c[1])
     if k == "offset":
-        return q.offset(c[1])
+        return q.offset(expr(c[1], env) if isinstance(c[1], list) else c[1])
     if k == "slice":
         return q[c[1]:c[2]]
     if k == "distinct":
